@@ -743,7 +743,7 @@ func candLabels(c lang.Candidates) string {
 	var ls []string
 	for _, x := range c.List {
 		// (a hook may echo the typed prefix, line ending included, in its label)
-		ls = append(ls, fmt.Sprintf("%s/%d", strings.ReplaceAll(x.Label, "\r", ""), x.Kind))
+		ls = append(ls, fmt.Sprintf("%s/%d", strings.ReplaceAll(strings.ReplaceAll(x.Label, "\r", ""), `\r`, ""), x.Kind))
 	}
 	sort.Strings(ls)
 	return fmt.Sprintf("complete=%v %s", c.IsComplete, strings.Join(ls, " "))
